@@ -68,6 +68,20 @@ Theorem C03_unify_same_rep : forall g sp a b s r s',
   (exists ha hb, head s a = Some ha /\ head s b = Some hb /\ (rep s a = rep s b \/ unify_compat ha hb)).
 Proof. exact TcInv.unify_same_rep. Qed.
 
+(* the occurs check of fn check_not_inside (/repo 1d60c01): a class whose type is still unknown does not unify with a
+   tuple that has that class as a component (`y = (y, 1)`).  The operator checks (add / sub / mul / cmp / neg / div)
+   recurse over the components of tuples; the only step that turns an unknown class into a tuple is this binding in
+   sub_unify, and it is refused when the class is reachable from the tuple through tuple components alone, so the
+   recursion of those checks is over a finite tree.  (Lists, blobs and enums may still be cyclic: the checks do not
+   descend into them.)  Proved here: the one-step statement.  That no sequence of unifications builds a tuple-only
+   cycle is the argument above, not a theorem; in the model such a cycle would show as OutOfFuel, which the
+   differential tie never observed (planted kinds cyclic-tuple-...). *)
+Theorem C03_occurs_check : forall g sp a b s tys c,
+  wf s -> head s a = Some HUnknown -> head s b = Some (HTuple tys) ->
+  In c tys -> rep s c = rep s a ->
+  notok (unify (gfix g) sp a b s).
+Proof. exact Mismatch.unify_occurs_rejected. Qed.
+
 Theorem C03_head_stable : forall {A} (m : M A) s a s' i h,
   pres m -> wf s -> m s = Ok (a, s') -> head s i = Some h -> is_unknown h = false ->
   exists h', head s' i = Some h' /\ same_shape h h' = true.
@@ -162,6 +176,7 @@ Print Assumptions C03_reachable_wf.
 Print Assumptions C03_push_keeps_classes.
 Print Assumptions C03_unify_same_rep.
 Print Assumptions C03_head_stable.
+Print Assumptions C03_occurs_check.
 Print Assumptions C03_every_function_preserves.
 
 (* ---- source tie: the hand-written model behind these theorems mirrors the files below; the digests of their
